@@ -196,6 +196,17 @@ def site_of(ex):
     return "?"
 
 
+def named_invalid(case, kw, inp):
+    """the invalid parameters named by the statement that this call carries"""
+    named = [f"{k}-{v}" for k, v in case["cls"].items()
+             if (k, v) in {("mu", "zero"), ("mu", "neg"), ("mbl", "zero"), ("mbl", "neg"), ("citer", "neg"),
+                           ("maxit", "zero"), ("maxit", "neg"), ("method", "unknown")}]
+    if case["cls"]["method"] == VG:
+        named += [n for n, on in (("population-size-unused", "population_size" in kw), ("priors-unused", "priors" in kw),
+                                  ("eps", "eps" in kw), ("no-mutations", inp.muts == "none")) if on]
+    return named
+
+
 def shown(kw):
     return {k: ("<priors>" if k == "priors" else v) for k, v in kw.items()}
 
@@ -220,7 +231,10 @@ def check_call(ctx, case, inp, fn_name, kw):
         ctx.count("outcome_" + cls)
         if cls not in case["allowed"]:
             ctx.count(f"crash[{label}/{cls}]@{inp.source.split('/')[0]}")
-            ctx.violation(f"C35/{label}/{cls}/{site_of(call.exc)}/{inp.source.split('/')[0]}", instance(),
+            sig = f"C35/{label}/{cls}/{site_of(call.exc)}/{inp.source.split('/')[0]}"
+            if case["must_reject"]:  # an invalid parameter got through validation and crashed further down
+                sig += "/invalid:" + "+".join(named_invalid(case, kw, inp))
+            ctx.violation(sig, instance(),
                           f"{head} raised {cls}: {str(call.exc)[:120]} [input class {inp.source}]", subcheck="class")
             return False
         if not str(call.exc).strip():
@@ -229,12 +243,7 @@ def check_call(ctx, case, inp, fn_name, kw):
         return True
     ctx.count("outcome_returns")
     if "returns" not in case["allowed"]:
-        named = [f"{k}-{v}" for k, v in case["cls"].items()
-                 if (k, v) in {("mu", "zero"), ("mu", "neg"), ("mbl", "zero"), ("mbl", "neg"), ("citer", "neg"),
-                               ("maxit", "zero"), ("maxit", "neg"), ("method", "unknown")}]
-        if m == VG:
-            named += [n for n, on in (("population-size-unused", "population_size" in kw), ("priors-unused", "priors" in kw),
-                                      ("eps", "eps" in kw), ("no-mutations", inp.muts == "none")) if on]
+        named = named_invalid(case, kw, inp)
         ctx.violation(f"C35/{label}/invalid-accepted/{'+'.join(named)}", instance(),
                       f"{head} returned a result although {named} must be rejected", subcheck="reject")
         return False
@@ -284,12 +293,12 @@ def run(ctx):
     ]
     jobs = [
         lambda c: decide(c, "c35_dec", max_dev=1 if q else 3, emit_upto=1 if q else 2),
-        lambda c: decide_sim(c, "c35_sim", 120 if q else 6000),
-        lambda c: sc.generate(c, "c35_gen_any", simulate=64 if q else 2400, NS=3, NI=2 if q else 3, L=2 if q else 3,
+        lambda c: decide_sim(c, "c35_sim", 120 if q else 5000),
+        lambda c: sc.generate(c, "c35_gen_any", simulate=64 if q else 1600, NS=3, NI=2, L=2 if q else 3,
                               max_muts=3, biased=(False,)),
-        lambda c: sc.generate(c, "c35_gen_cu", simulate=64 if q else 2400, NS=3, NI=2, L=2 if q else 3, max_muts=3,
+        lambda c: sc.generate(c, "c35_gen_cu", simulate=64 if q else 1600, NS=3, NI=2, L=2 if q else 3, max_muts=3,
                               biased=(False,), tree_filter="completeunary"),
-        lambda c: sc.generate(c, "c35_gen_small", simulate=48 if q else 1200, NS=2, NI=2, L=2, max_muts=2,
+        lambda c: sc.generate(c, "c35_gen_small", simulate=48 if q else 800, NS=2, NI=2, L=2, max_muts=2,
                               biased=(False,), tree_filter="nodangling"),
     ]
 
@@ -304,7 +313,7 @@ def run(ctx):
     seed = ctx.seed % 100000
     gen = tsgen_inputs(ctx, res[2] + res[3] + res[4])
     corpus = corpus_inputs(seed, q)
-    sparse = sparse_inputs(seed, 12 if q else 200)
+    sparse = sparse_inputs(seed, 12 if q else 150)
     nomut = [strip_mutations(i) for i in corpus[:2 if q else 6]]
     pool = gen + corpus + sparse + nomut
     by_muts = {"some": [i for i in pool if i.muts == "some"], "none": [i for i in pool if i.muts == "none"]}
@@ -324,7 +333,7 @@ def run(ctx):
         ctx.traces += 1
         ctx.nontriv((tuple(case["pick"]), inp.name))
 
-    k_dev = 1 if q else 8
+    k_dev = 1 if q else 6
     for case in cases:
         c = case["cls"]
         cand = by_muts[c["muts"]]
